@@ -54,6 +54,40 @@ TARGETS = [
     ('cardutil/mciipm.py', 'VbsWriter.write', {'record': 'bytes'}, None),
     ('cardutil/mciipm.py', 'VbsWriter.close', {}, None),
     ('cardutil/mciipm.py', 'VbsWriter.__exit__', {'exc_type': 'none', 'exc_val': 'none', 'exc_tb': 'none'}, None),
+    # the BLOCKED writer: Block1014 over a file (data + position) instead of an append-only sink, and VbsWriter whose
+    # `out_file` is such a Block1014 object (`self.out_file.write(e)` / `.seek(0)` are the translated Block1014 methods on the
+    # wrapped object's part of the state)
+    ('cardutil/mciipm.py', 'Block1014.write', {'bytes_to_write': 'bytes'}, None,
+     {'variant': 'F', 'spec': {'fields': [('remaining_chars', 'int')], 'file': 'file_obj'}, 'lean_name': 'Block1014F_write'}),
+    ('cardutil/mciipm.py', 'Block1014.finalise', {}, None,
+     {'variant': 'F', 'spec': {'fields': [('remaining_chars', 'int')], 'file': 'file_obj'}, 'lean_name': 'Block1014F_finalise'}),
+    ('cardutil/mciipm.py', 'Block1014.seek', {'pos': 'int'}, None,
+     {'variant': 'F', 'spec': {'fields': [('remaining_chars', 'int')], 'file': 'file_obj'}, 'lean_name': 'Block1014F_seek'}),
+    ('cardutil/mciipm.py', 'VbsWriter.write', {'record': 'bytes'}, None,
+     {'variant': 'B', 'lean_name': 'VbsWriterB_write',
+      'spec': {'fields': [('_finalised', 'bool')],
+               'wrapped': ('out_file', 'Block1014', 'F', [('w_remaining_chars', 'int'), ('w_fdata', 'bytes'), ('w_fpos', 'int')])}}),
+    ('cardutil/mciipm.py', 'VbsWriter.close', {}, None,
+     {'variant': 'B', 'lean_name': 'VbsWriterB_close',
+      'spec': {'fields': [('_finalised', 'bool')],
+               'wrapped': ('out_file', 'Block1014', 'F', [('w_remaining_chars', 'int'), ('w_fdata', 'bytes'), ('w_fpos', 'int')])}}),
+    # the BLOCKED reader: VbsReader whose `vbs_data` is an Unblock1014 object (`self.vbs_data.read(n)` is the translated
+    # Unblock1014.read on the wrapped object's part of the state)
+    ('cardutil/mciipm.py', 'VbsReader.__next__', {}, 'bytes',
+     {'variant': 'B', 'lean_name': 'VbsReaderB_next',
+      'spec': {'fields': [('record_number', 'int'), ('last_record', 'bytes')], 'signals': True,
+               'wrapped': ('vbs_data', 'Unblock1014', '', [('w_buffer', 'bytes'), ('w_in', 'bytes')])}}),
+    # the message writer and reader over the BLOCKED base classes
+    ('cardutil/mciipm.py', 'IpmWriter.write', {'obj': ('dict', 'str', 'pyval')}, None,
+     {'variant': 'B', 'lean_name': 'IpmWriterB_write', 'dumps_ext': True,
+      'extern': {'dumps_ext': ([('d', ('dict', 'str', 'pyval'))], 'bytes', True)},
+      'spec': {'fields': [('_finalised', 'bool')],
+               'wrapped': ('out_file', 'Block1014', 'F', [('w_remaining_chars', 'int'), ('w_fdata', 'bytes'), ('w_fpos', 'int')])}}),
+    ('cardutil/mciipm.py', 'IpmReader.__next__', {}, ('dict', 'str', 'pyval'),
+     {'variant': 'B', 'lean_name': 'IpmReaderB_next', 'loads_ext': True,
+      'extern': {'loads_ext': ([('b', 'bytes')], ('dict', 'str', 'pyval'), True)},
+      'spec': {'fields': [('record_number', 'int'), ('last_record', 'bytes')], 'signals': True,
+               'wrapped': ('vbs_data', 'Unblock1014', '', [('w_buffer', 'bytes'), ('w_in', 'bytes')])}}),
     # PIN blocks: read-only methods (the object's pin / card number / random value are parameters), class methods whose
     # `return cls(pin, ...)` is rendered as returning the pin the new object is built from
     ('cardutil/pinblock.py', 'Iso0PinBlock.to_bytes', {}, 'bytes'),
@@ -1133,6 +1167,9 @@ class Translator:
                 if isinstance(st.value, ast.Call) and isinstance(st.value.func, ast.Name) \
                         and st.value.func.id == '__source_read__':
                     out.append('self_in')
+                if isinstance(st.value, ast.Call) and isinstance(st.value.func, ast.Name) \
+                        and st.value.func.id == '__wrapped_value__':
+                    out.append('*self*')
                 if isinstance(st.value, ast.Call) and isinstance(st.value.func, ast.Attribute) \
                         and st.value.func.attr == 'pop' and isinstance(st.value.func.value, ast.Name):
                     out.append(st.value.func.value.id)
@@ -1149,7 +1186,7 @@ class Translator:
                     and st.value.func.attr in ('append', 'update') and isinstance(st.value.func.value, ast.Name):
                 out.append(st.value.func.value.id)
             elif isinstance(st, ast.Expr) and isinstance(st.value, ast.Call) and isinstance(st.value.func, ast.Name) \
-                    and st.value.func.id in ('__self_call__', '__super_call__', '__file_write__'):
+                    and st.value.func.id in ('__self_call__', '__super_call__', '__file_write__', '__wrapped_call__'):
                 out.append('*self*')          # the whole self state (expanded by state_of)
             elif isinstance(st, ast.If):
                 for x in st.body + st.orelse:
@@ -1229,16 +1266,23 @@ class Translator:
                         + self.stmts(rest, env, ret, loop))
             return self.wrap(go)
         if isinstance(s, ast.Expr) and isinstance(s.value, ast.Call) and isinstance(s.value.func, ast.Name) \
-                and s.value.func.id in ('__self_call__', '__super_call__'):
+                and s.value.func.id in ('__self_call__', '__super_call__', '__wrapped_call__'):
             # self.m(args) / super(...).m(args): the translated method (of this class / of its base class) on the current
-            # state; the state it returns goes on
-            owner = self.cls if s.value.func.id == '__self_call__' else self.base_of(self.cls)
+            # state; the state it returns goes on.  self.<wrapped>.m(args): the translated method of the wrapped object's
+            # class on the wrapped object's part of the state
             meth = s.value.args[0].value
-            mname = f'{owner}_{meth}'.replace('__', '')
-            fn = self.known.get(f'{owner}.{meth}') or ALL_KNOWN.get(f'{owner}.{meth}')
+            names = self.state_names
+            if s.value.func.id == '__wrapped_call__':
+                owner = self.wrapped[1]
+                key = f'{owner}.{meth}' + (f'@{self.wrapped[2]}' if self.wrapped[2] else '')
+                names = [wn for wn, _ in self.wrapped[3]]
+            else:
+                owner = self.cls if s.value.func.id == '__self_call__' else self.base_of(self.cls)
+                key = f'{owner}.{meth}' + (f'@{self.variant}' if getattr(self, 'variant', None) else '')
+            fn = self.known.get(key) or ALL_KNOWN.get(key)
+            mname = fn.name if fn is not None else key
             if fn is None or self.self_state is None:
                 raise Untranslatable(f'call of the untranslated method {mname}')
-            names = self.state_names
             if [t for _, t in fn.params[:len(names)]] != [env[n][1] for n in names]:
                 raise Untranslatable(f'{mname} works on another state')
             for en, espec in fn.externs:
@@ -1253,7 +1297,10 @@ class Translator:
                 for (pn, pt), a in zip(extra, s.value.args[1:]):
                     ac, at = self.expr(a, env)
                     argcodes.append(self.coerce(ac, at, pt))
-                args = ' '.join([f'ext{en}' for en, _ in fn.externs] + list(names) + [f'({a})' for a in argcodes])
+                args = ' '.join((['fuel'] if getattr(fn, 'uses_fuel', False) else []) + [f'ext{en}' for en, _ in fn.externs]
+                                + list(names) + [f'({a})' for a in argcodes])
+                if getattr(fn, 'uses_fuel', False):
+                    self.uses_fuel = True
                 opener = ''
                 for i, n in enumerate(names):
                     path = 'sc' + '.2' * i + ('.1' if i < len(names) - 1 else '')
@@ -1299,6 +1346,44 @@ class Translator:
             post = [ast.Assign(targets=[ast.Name(id=t.id, ctx=ast.Store())], value=ast.Name(id=tm, ctx=ast.Load()))
                     for t, tm in zip(s.targets[0].elts, tmps)]
             return self.stmts(pre + post + rest, env, ret, loop)
+        if isinstance(s, ast.Assign) and len(s.targets) == 1 and isinstance(s.targets[0], ast.Name) \
+                and isinstance(s.value, ast.Call) and isinstance(s.value.func, ast.Name) \
+                and s.value.func.id == '__wrapped_value__':
+            # x = self.<wrapped>.m(args): the value and the wrapped object's new state
+            name = s.targets[0].id
+            meth = s.value.args[0].value
+            owner = self.wrapped[1]
+            key = f'{owner}.{meth}' + (f'@{self.wrapped[2]}' if self.wrapped[2] else '')
+            fn = self.known.get(key) or ALL_KNOWN.get(key)
+            wnames = [wn for wn, _ in self.wrapped[3]]
+            if fn is None or not (isinstance(fn.ret, tuple) and fn.ret[0] == 'tuple' and len(fn.ret) == 3):
+                raise Untranslatable(f'call of the untranslated (or valueless) method {key}')
+            if [t for _, t in fn.params[:len(wnames)]] != [env[n][1] for n in wnames] or fn.externs:
+                raise Untranslatable(f'{key} works on another state')
+            extra = fn.params[len(wnames):]
+            if len(extra) != len(s.value.args) - 1:
+                raise Untranslatable(f'{key}: argument count')
+
+            def go_wv():
+                argcodes = []
+                for (pn, pt), a in zip(extra, s.value.args[1:]):
+                    ac, at = self.expr(a, env)
+                    argcodes.append(self.coerce(ac, at, pt))
+                args = ' '.join((['fuel'] if getattr(fn, 'uses_fuel', False) else []) + wnames + [f'({a})' for a in argcodes])
+                if getattr(fn, 'uses_fuel', False):
+                    self.uses_fuel = True
+                opener = f'let {name} : {lean_type(fn.ret[1])} := wv.1;\n  '
+                for i, n in enumerate(wnames):
+                    path = 'wv.2' + '.2' * i + ('.1' if i < len(wnames) - 1 else '')
+                    opener += f'let {n} := {path};\n  '
+                env2 = dict(env)
+                env2[name] = (name, fn.ret[1])
+                if fn.partial:
+                    if not self.monadic:
+                        raise NeedMonad()
+                    return f'Outcome.bind ({fn.name} {args}) (fun wv =>\n  {opener}' + self.stmts(rest, env2, ret, loop) + ')'
+                return f'let wv := ({fn.name} {args});\n  {opener}' + self.stmts(rest, env2, ret, loop)
+            return self.wrap(go_wv)
         if isinstance(s, ast.Assign) and len(s.targets) == 1 and isinstance(s.targets[0], ast.Name) \
                 and isinstance(s.value, ast.Call) and isinstance(s.value.func, ast.Name) \
                 and s.value.func.id == '__source_read__':
@@ -1432,8 +1517,11 @@ class Translator:
                 and not s.value.args and getattr(self, 'signals', False):
             # x = super(...).__next__(): the translated base-class method on the current state; its StopIteration and its
             # library error are this method's as well, its return value and new state go on
-            base = ALL_KNOWN.get('VbsReader.__next__')
-            if base is None or self.state_names != ['self_record_number', 'self_last_record', 'self_in']:
+            vsfx = f'@{self.variant}' if getattr(self, 'variant', None) else ''
+            base = ALL_KNOWN.get('VbsReader.__next__' + vsfx)
+            names = self.state_names
+            if base is None or names[:2] != ['self_record_number', 'self_last_record'] \
+                    or [t for _, t in base.params[:len(names)]] != [env[n][1] for n in names] or len(base.params) != len(names):
                 raise Untranslatable('super().__next__() without the translated base method')
             if not self.monadic:
                 raise NeedMonad()
@@ -1441,11 +1529,17 @@ class Translator:
             env2 = dict(env)
             env2[name] = (name, 'bytes')
             body = self.stmts(rest, env2, ret, loop)
-            return (f'Outcome.bind ({base.name} self_record_number self_last_record self_in) (fun sig =>\n'
+            if getattr(base, 'uses_fuel', False):
+                self.uses_fuel = True
+            opener = ''
+            for i, n in enumerate(names):
+                path = 'r.2' + '.2' * i + ('.1' if i < len(names) - 1 else '')
+                opener += f'    let {n} : {lean_type(env[n][1])} := {path};\n'
+            call = ' '.join((['fuel'] if getattr(base, 'uses_fuel', False) else []) + names)
+            return (f'Outcome.bind ({base.name} {call}) (fun sig =>\n'
                     f'  match sig with\n  | Rt.Signal.stop => .ok Rt.Signal.stop\n'
                     f'  | Rt.Signal.libError n c => .ok (Rt.Signal.libError n c)\n'
-                    f'  | Rt.Signal.ret r =>\n    let {name} : Bytes := r.1;\n    let self_record_number : Int := r.2.1;\n'
-                    f'    let self_last_record : Bytes := r.2.2.1;\n    let self_in : Bytes := r.2.2.2;\n    {body})')
+                    f'  | Rt.Signal.ret r =>\n    let {name} : Bytes := r.1;\n{opener}    {body})')
         if isinstance(s, ast.Try) and getattr(self, 'signals', False) and not s.orelse and not s.finalbody \
                 and len(s.handlers) == 1 and len(s.body) == 1 and isinstance(s.body[0], ast.Assign) \
                 and len(s.body[0].targets) == 1 and isinstance(s.body[0].targets[0], ast.Name) \
@@ -1785,6 +1879,12 @@ class SelfRewriter(ast.NodeTransformer):
                 func=ast.Name(id=f'{self.cls}.{f.attr}', ctx=ast.Load()),
                 args=[ast.Name(id=f'self_{fl}', ctx=ast.Load()) for fl in self.fields] + [self.visit(a) for a in node.args],
                 keywords=[]), node)
+        if 'wrapped' in self.spec and isinstance(f, ast.Attribute) and isinstance(f.value, ast.Attribute) \
+                and isinstance(f.value.value, ast.Name) and f.value.value.id == 'self' \
+                and f.value.attr == self.spec['wrapped'][0] and not node.keywords:
+            # self.<wrapped>.m(args) used for its value: the translated method of the wrapped object's class
+            return ast.copy_location(ast.Call(func=ast.Name(id='__wrapped_value__', ctx=ast.Load()),
+                                              args=[ast.Constant(f.attr)] + [self.visit(a) for a in node.args], keywords=[]), node)
         if isinstance(f, ast.Attribute) and f.attr == 'read' and isinstance(f.value, ast.Attribute) \
                 and isinstance(f.value.value, ast.Name) and f.value.value.id == 'self' \
                 and f.value.attr == self.spec.get('source') and len(node.args) == 1:
@@ -1802,6 +1902,11 @@ class SelfRewriter(ast.NodeTransformer):
                 return ast.Expr(value=ast.Call(func=ast.Name(id='__file_write__', ctx=ast.Load()), args=[arg], keywords=[]))
             if c.func.attr == 'seek':
                 return ast.Assign(targets=[ast.Name(id='self_fpos', ctx=ast.Store())], value=arg)
+        if 'wrapped' in self.spec and isinstance(c, ast.Call) and isinstance(c.func, ast.Attribute) \
+                and isinstance(c.func.value, ast.Attribute) and isinstance(c.func.value.value, ast.Name) \
+                and c.func.value.value.id == 'self' and c.func.value.attr == self.spec['wrapped'][0] and not c.keywords:
+            return ast.Expr(value=ast.Call(func=ast.Name(id='__wrapped_call__', ctx=ast.Load()),
+                                           args=[ast.Constant(c.func.attr)] + [self.visit(a) for a in c.args], keywords=[]))
         if isinstance(c, ast.Call) and isinstance(c.func, ast.Attribute) and isinstance(c.func.value, ast.Name) \
                 and c.func.value.id == 'self' and not c.keywords:
             return ast.Expr(value=ast.Call(func=ast.Name(id='__self_call__', ctx=ast.Load()),
@@ -2059,16 +2164,17 @@ def translate_function(mod_ast, fdef, ptypes, ret, known, cls=None, opts=None):
         body = [FileParams(src, dst).visit(st) for st in __import__('copy').deepcopy(body)]
         body = [st for st in body if st is not None] + [ast.Return(value=ast.Name(id='self_out', ctx=ast.Load()))]
         ast.fix_missing_locations(ast.Module(body=body, type_ignores=[]))
-    readonly = cls is not None and (opts.get('classmethod') or opts.get('readonly') or SELF_STATE.get(cls, {}).get('readonly'))
+    cls_spec = opts.get('spec') or SELF_STATE.get(cls, {})
+    readonly = cls is not None and (opts.get('classmethod') or opts.get('readonly') or cls_spec.get('readonly'))
     if readonly:
         if opts.get('classmethod'):
             if not arglist or arglist[0].arg != 'cls':
                 raise Untranslatable('class method without cls')
             body = [ClsReturn().visit(st) for st in __import__('copy').deepcopy(body)]
         else:
-            if not arglist or arglist[0].arg != 'self' or cls not in SELF_STATE:
+            if not arglist or arglist[0].arg != 'self' or not cls_spec:
                 raise Untranslatable('method without a described self state')
-            for f, t in SELF_STATE[cls]['fields']:
+            for f, t in cls_spec['fields']:
                 params.append((f'self_{f}', t))
         arglist = arglist[1:]
         lean_name = opts.get('lean_name', f'{cls}_{fdef.name}'.replace('__', ''))
@@ -2076,9 +2182,9 @@ def translate_function(mod_ast, fdef, ptypes, ret, known, cls=None, opts=None):
         ptypes = dict(ptypes, **dict(opts['params']))        # (types given next to 'params' stay as hints for locals)
         arglist = [ast.arg(arg=n) for n, _ in opts['params']]
     if cls is not None and not readonly:
-        if not arglist or arglist[0].arg != 'self' or cls not in SELF_STATE:
+        if not arglist or arglist[0].arg != 'self' or not cls_spec:
             raise Untranslatable('method without a described self state')
-        spec = SELF_STATE[cls]
+        spec = cls_spec
         arglist = arglist[1:]
         for f, t in spec['fields']:
             params.append((f'self_{f}', t))
@@ -2093,7 +2199,12 @@ def translate_function(mod_ast, fdef, ptypes, ret, known, cls=None, opts=None):
             params.append(('self_fdata', 'bytes'))
             params.append(('self_fpos', 'int'))
             names += ['self_fdata', 'self_fpos']
-        lean_name = f'{cls}_{fdef.name}'.replace('__', '')
+        if 'wrapped' in spec:
+            # the wrapped object is another translated class: its state follows this object's own fields
+            for wn, wt in spec['wrapped'][3]:
+                params.append((wn, wt))
+                names.append(wn)
+        lean_name = opts.get('lean_name', f'{cls}_{fdef.name}'.replace('__', ''))
 
         def nest(items):
             return items[0] if len(items) == 1 else ast.Tuple(elts=[items[0], nest(items[1:])], ctx=ast.Load())
@@ -2127,11 +2238,13 @@ def translate_function(mod_ast, fdef, ptypes, ret, known, cls=None, opts=None):
         tr.self_value = cls is not None and value_type not in (None, 'none')
         tr.signals = signals
         tr.cls = cls
+        tr.variant = opts.get('variant')
+        tr.wrapped = cls_spec.get('wrapped') if cls is not None else None
         tr.state_names = [n for n, _ in params[:len(params) - len(arglist)]] if cls is not None else []
         use = body
         if cls is not None and not opts.get('classmethod'):
             import copy
-            rw = SelfRewriter(tr, cls, SELF_STATE[cls])
+            rw = SelfRewriter(tr, cls, cls_spec)
             use = [ast.fix_missing_locations(rw.visit(copy.deepcopy(st))) for st in body]
         try:
             code = tr.stmts(use, env, ret)
@@ -2149,7 +2262,9 @@ def translate_function(mod_ast, fdef, ptypes, ret, known, cls=None, opts=None):
             rt = f'(Rt.Signal {rt})'
         rtype = f'Outcome {rt}' if monadic else rt
         text = f'def {lean_name} {sig} : {rtype} :=\n  {code}\n'
-        return text, Fn(lean_name, params, ret, monadic, defaults, list(reversed(list(extern.items()))))
+        fn_obj = Fn(lean_name, params, ret, monadic, defaults, list(reversed(list(extern.items()))))
+        fn_obj.uses_fuel = tr.uses_fuel
+        return text, fn_obj
     raise Untranslatable('could not translate')
 
 
@@ -2189,8 +2304,9 @@ def translate_all(repo=REPO):
                 opts.setdefault('lean_name', f'{cls}_{fname}')
                 cls = None
             text, fn = translate_function(mod, fdefs[0], ptypes, ret, known, cls, opts)
-            known[name] = fn
-            ALL_KNOWN[name] = fn
+            key = name + ('@' + opts['variant'] if 'variant' in opts else '')
+            known[key] = fn
+            ALL_KNOWN[key] = fn
             what = f' (fragment {opts["fragment"]})' if 'fragment' in opts else ''
             out.append(f'/-- `{path}: {name}`{what} -/')
             out.append(text)
